@@ -320,7 +320,7 @@ int main(int argc, char** argv) {
         setvbuf(vt::g_out, nullptr, _IOLBF, 1 << 20);   // one write() per event line: a crash never leaves a torn line
         fe->fn(behs, idx, from);
         fclose(vt::g_out);
-        _exit(0);
+        vt::child_exit(0);
       }
       int status = 0;
       waitpid(pid, &status, 0);
